@@ -282,7 +282,8 @@ def main(argv=None):
                 found = rpl.search(prop, rec, seed)
                 if found:
                     rec.update(found)
-                    suffix = ''
+                    if found.get('input'):
+                        suffix = ''
             except Exception as e:   # replay machinery must never turn a violation into a crash
                 rec['replay_error'] = str(e)[-500:]
             with open(rp, 'w') as f:
@@ -293,6 +294,23 @@ def main(argv=None):
                 sys.stderr.write(fl.get('rendered', '') + '\n')
         rc = 1
     if undecided and rc == 0:
+        try:
+            from . import replay as rpl
+            found = rpl.search(prop, {'function': None}, seed)
+        except Exception as e:
+            found = None
+        if found and found.get('input'):
+            os.makedirs(os.path.join(VERIF, 'out', 'replay'), exist_ok=True)
+            rp = os.path.join(VERIF, 'out', 'replay', '%s_u.json' % prop)
+            rec = {'property': prop, 'function': found.get('battery_function'), 'clause': found.get('battery_clause'),
+                   'obligation': 'undecided by the verifier (%s); concrete counter-example from the replay battery' % '; '.join('%s: %s' % (n, ' '.join(w.split())[:160]) for n, w in undecided),
+                   'verifier': 'verus (undecided) + replay battery', 'cmd': 'bin/check --replay %s' % rp, 'source_tree_hash': key}
+            rec.update(found)
+            with open(rp, 'w') as f:
+                json.dump(rec, f, indent=1)
+            print('VIOLATION property=%s replay=%s obligation=%s::%s (verifier undecided; replayed counter-example)' % (
+                prop, rp, found.get('battery_function'), found.get('battery_clause')))
+            return 1
         for n, why in undecided:
             print('UNDECIDED property=%s unit=%s reason=%s' % (prop, n, ' '.join(why.split())[:400]))
         rc = 2
